@@ -102,6 +102,16 @@ fn build(seed: u64, i: usize) -> Built {
     let mut nodes: Vec<Node> = (0..n)
         .map(|k| Node { dir: if k == 0 { String::new() } else { r.pick(&dirs_pool).to_string() }, name: format!("f{k}.circom"), defs: vec![], includes: vec![], bad_includes: vec![] })
         .collect();
+    // two files with one name in different directories (a local file shadowing a library file)
+    for k in 2..n {
+        if r.chance(1, 5) {
+            let j = 1 + r.usize(k - 1);
+            if nodes[j].dir != nodes[k].dir && !nodes.iter().any(|x| x.dir == nodes[k].dir && x.name == nodes[j].name) {
+                nodes[k].name = nodes[j].name.clone();
+                shapes.push("same-name-in-two-directories");
+            }
+        }
+    }
     // forward edges (j > i): chain / diamond material
     let mut edges: Vec<(usize, usize)> = Vec::new();
     for a in 0..n {
@@ -111,6 +121,32 @@ fn build(seed: u64, i: usize) -> Built {
                 edges.push((a, b));
             }
         }
+    }
+    // deliberate shape: a library file shadowed by a local file of the same name; one
+    // includer reaches the name through -L, another (next to the local file) locally
+    let mut force_bare: BTreeSet<(usize, usize)> = BTreeSet::new();
+    let mut force_lib = false;
+    if n >= 5 && r.chance(1, 8) {
+        let (l, y, bnode) = (n - 1, n - 2, n - 3);
+        nodes[l].dir = "lib".into();
+        nodes[y].dir = "sub".into();
+        nodes[y].name = nodes[l].name.clone();
+        nodes[bnode].dir = "sub".into();
+        nodes[bnode].name = format!("f{bnode}.circom");
+        edges.retain(|e| *e != (bnode, l) && *e != (0, y));
+        for e in [(0, l), (0, bnode), (bnode, y)] {
+            if !edges.contains(&e) {
+                edges.push(e);
+            }
+            force_bare.insert(e);
+        }
+        force_bare.remove(&(0, bnode));
+        if r.chance(1, 2) {
+            // includer order on the stack decides which resolution comes first
+            edges.reverse();
+        }
+        force_lib = true;
+        shapes.push("library-file-shadowed-by-local-file");
     }
     // diamonds arise from forward edges; cycles and self-includes from back edges
     if r.chance(1, 3) {
@@ -174,7 +210,7 @@ fn build(seed: u64, i: usize) -> Built {
     let mut world = World::default();
     let mut libs: Vec<String> = Vec::new();
     let has_lib_nodes = nodes.iter().any(|x| x.dir == "lib");
-    let lib_dir_given = has_lib_nodes && r.chance(2, 3);
+    let lib_dir_given = has_lib_nodes && (force_lib || r.chance(2, 3));
     if lib_dir_given {
         libs.push(r.pick(&["lib", "lib/", "./lib", "sub/../lib", "lib/../lib", "@ROOT@/lib"]).to_string());
         shapes.push("library-dir");
@@ -198,7 +234,9 @@ fn build(seed: u64, i: usize) -> Built {
         let from_dir = nodes[a].dir.clone();
         let to = nodes[b].path();
         let choice = r.usize(10);
-        let spelling = if lib_dir_given && nodes[b].dir == "lib" && from_dir != "lib" && choice < 4 {
+        let spelling = if force_bare.contains(&(a, b)) {
+            nodes[b].name.clone()
+        } else if lib_dir_given && nodes[b].dir == "lib" && from_dir != "lib" && choice < 4 {
             // through the library directory: bare name, no local file of that name
             shapes.push("via-library-dir");
             nodes[b].name.clone()
@@ -592,23 +630,56 @@ fn one(runner: &Runner, seed: u64, i: usize) -> Res {
         let mut r2 = Rng::new(seed).sub_n("C19-extra", i as u64);
         let mut c = b.case.clone();
         c.plan.set_hashkey(r2.bytes16());
-        if b.nodes.len() > 1 && r2.chance(1, 3) {
+        let mut damaged: Option<String> = None;
+        if b.nodes.len() > 1 && r2.chance(1, 2) {
             let k = 1 + r2.usize(b.nodes.len() - 1);
-            let (call, errno) = *r2.pick(&[("open", libc::EACCES), ("read", libc::EIO), ("open", libc::ENOENT)]);
-            c.plan.faults.push(Fault { call: call.into(), errno, occurrence: 1, suffix: b.nodes[k].name.clone() });
+            match r2.usize(5) {
+                0 => c.plan.faults.push(Fault { call: "open".into(), errno: libc::EACCES, occurrence: 0, suffix: b.nodes[k].path() }),
+                1 => c.plan.faults.push(Fault { call: "read".into(), errno: libc::EIO, occurrence: 0, suffix: b.nodes[k].path() }),
+                2 => c.plan.faults.push(Fault { call: "open".into(), errno: libc::ENOENT, occurrence: 0, suffix: b.nodes[k].path() }),
+                3 => {
+                    let len = c.world.files[&b.nodes[k].path()].bytes().len();
+                    corrupt_file(&mut c.world, &b.nodes[k].path(), &Corruption::BadUtf8(r2.usize(len.max(1))));
+                }
+                _ => {
+                    let mut t = c.world.get_text(&b.nodes[k].path()).unwrap_or("").to_string();
+                    t.push_str("\n@ } broken\n");
+                    c.world.put(&b.nodes[k].path(), &t);
+                }
+            }
+            damaged = Some(b.nodes[k].path());
         }
         if let Ok(o2) = runner.run(&c) {
             res.runs += 1;
             res.sim_ns += o2.sim_ns();
             if crashed(&o2) {
                 res.crashed += 1;
-            } else if c.plan.faults.is_empty() {
+            } else if damaged.is_none() {
                 if let Some((sig, detail)) = judge(runner, &b, &o2) {
                     res.violation = Some((sig, detail, json!({"kind": "C19", "seed": seed, "index": i, "case": c})));
                     return res;
                 }
-            } else if o2.events.iter().any(|e| e.result_num().map(|v| v < 0).unwrap_or(false) && (e.call == "open" || e.call == "read")) {
+            } else {
+                // an included file that cannot be read or parsed: whatever else happens, no
+                // file is opened more than once, however many include paths lead to it
                 res.faults_fired += 1;
+                let mut attempts: BTreeMap<PathBuf, usize> = BTreeMap::new();
+                for e in &o2.events {
+                    if e.call == "open" {
+                        let p = e.path.replace(ROOT_TOKEN, &runner.root.to_string_lossy());
+                        let cpath = std::fs::canonicalize(&p).unwrap_or_else(|_| PathBuf::from(&p));
+                        *attempts.entry(cpath).or_default() += 1;
+                    }
+                }
+                if let Some((p, n)) = attempts.iter().find(|(_, n)| **n > 1) {
+                    let rel = p.strip_prefix(&runner.root).unwrap_or(p).display().to_string();
+                    res.violation = Some((
+                        "opened-more-than-once:damaged-include".into(),
+                        format!("`{rel}` was opened {n} times in a run where `{}` cannot be read or parsed; shapes {:?}", damaged.clone().unwrap_or_default(), b.shapes),
+                        json!({"kind": "C19", "seed": seed, "index": i, "case": c, "damaged": damaged}),
+                    ));
+                    return res;
+                }
             }
         }
     }
@@ -729,10 +800,12 @@ pub fn replay(env: &Env, v: &Value) -> i32 {
     let case: Case = serde_json::from_value(v["case"].clone()).unwrap_or_else(|e| harness_error(&format!("replay: {e}")));
     let o = runner.run(&case).unwrap_or_else(|e| harness_error(&e));
     println!("argv: {:?}\n{}", case.argv, o.stdout);
-    if let Some((sig, detail)) = judge(&runner, &b, &o) {
-        println!("{sig}: {detail}");
-        println!("VIOLATION property=C19 replay=(replayed)");
-        return 1;
+    if v.get("damaged").map(|d| d.is_null()).unwrap_or(true) && v.get("inline_twin").is_none() {
+        if let Some((sig, detail)) = judge(&runner, &b, &o) {
+            println!("{sig}: {detail}");
+            println!("VIOLATION property=C19 replay=(replayed)");
+            return 1;
+        }
     }
     let r = one(&runner, seed, index);
     if let Some((sig, detail, _)) = r.violation {
